@@ -125,6 +125,28 @@ func w1GenProp(r *rand.Rand, c *simrt.Case, nclients, maxOps int, prop, tier str
 		}
 		w1S3WriteFaults(r, c, r.IntN(3))
 		c.Program = append(c.Program, simrt.Op{Actor: 100, Kind: "crash"}, simrt.Op{Actor: 100, Kind: "verify"})
+	case "C41":
+		// producers, then (optionally after a restart = cold cache) several
+		// fetchers hitting the same few segments at once: concurrent cache
+		// misses, hits, prefetches and flushes on shared partitions
+		cfg["cache_on"] = 1
+		cfg["cache_bytes"] = pick[int64](r, 400, 2000, 32<<20)
+		cfg["readahead"] = int64(1 + r.IntN(2))
+		cfg["partitions"] = 1
+		cfg["buf_max_bytes"] = pick[int64](r, 1, 300, 4<<20)
+		w1GenProduceHeavy(r, c, nclients, maxOps, prop)
+		if r.IntN(2) == 0 {
+			c.Program = append(c.Program, simrt.Op{Actor: 100, Kind: "crash"})
+		}
+		nf := 2 + r.IntN(4)
+		for f := 0; f < nf; f++ {
+			for i := 0; i < 1+r.IntN(4); i++ {
+				c.Program = append(c.Program, simrt.Op{Actor: 100 + f, Kind: "fetch", C: int64(r.IntN(30)), D: pick[int64](r, 100, 1<<20)})
+				if r.IntN(3) == 0 {
+					c.Program = append(c.Program, simrt.Op{Actor: 100 + f, Kind: "produce", C: int64(1 + r.IntN(3)), D: 1})
+				}
+			}
+		}
 	case "C25":
 		w1GenHealth(r, c, nclients, maxOps)
 	case "C44":
